@@ -336,6 +336,20 @@ class World(object):
                 self.h[a["out"]] = ProvBundle(identifier=ident)
                 return none
             return run
+        if op == "CompareAll":
+            objs = [self.h[x] for x in a["hs"]]
+
+            def run():
+                eq = [[bool(x == y) for y in objs] for x in objs]
+                ne = [[bool(x != y) for y in objs] for x in objs]
+                rec = []
+                r1, r2 = objs[0].records[:4], objs[1].records[:4]
+                for i, x in enumerate(r1):
+                    for j, y in enumerate(r2):
+                        rec.append({"i": i + 1, "j": j + 1, "eq": bool(x == y), "qe": bool(y == x),
+                                    "hi": str(hash(x)), "hj": str(hash(y))})
+                return {"eq": eq, "ne": ne, "rec": rec}
+            return run
         c = self.h[a["h"]]
         if op == "Bundle":
             ident = self.name(a["id"])
